@@ -65,6 +65,17 @@ CHECKS = {
                 'document-derived paths (pointer_at_path, content_at_path).',
         'technique': 'static analysis: call-graph reachability + panic-site enumeration over MIR with dominator-based guard recognition, SCC recursion-bound rule',
     },
+    'C14': {
+        'text': 'Sibling agreement of the two decoders, recovered from the code on every run: the string literals each '
+                'module compares keys/tokens against (27 keys) are the same set, both call the same runtime constructors '
+                '(Value::new per payload type, Glue, ControlCommand, NativeFunctionCall, Void, Divert, ChoicePoint, ...), '
+                'both apply the same version bounds, and the hand-written tokenizer distinguishes every JSON string '
+                'escape of RFC 8259 §7. A key, object kind or escape known to one loader only makes some document load '
+                'differently under the other feature configuration.',
+        'design_ref': 'DESIGN.md §4 C14',
+        'note': TRUST + ' Not decided: equality of the constructed trees for every document, number forms, whitespace layouts.',
+        'technique': 'static analysis: string/char-constant table recovery from MIR and cross-checking of sibling implementations',
+    },
 }
 
 NOT_APPLICABLE = {
